@@ -210,6 +210,29 @@ func (ip *Interp) defaultAt(o *Obj, path []Sel, t types.Type) Val {
 	return ip.entry(o.Name+PrettyPath(o.T, path), t)
 }
 
+// typeAtPath follows an access path through a type.
+func typeAtPath(t types.Type, path []Sel) types.Type {
+	for _, s := range path {
+		if t == nil {
+			return nil
+		}
+		switch u := t.Underlying().(type) {
+		case *types.Struct:
+			if s.Field < 0 || s.Field >= u.NumFields() {
+				return nil
+			}
+			t = u.Field(s.Field).Type()
+		case *types.Array:
+			t = u.Elem()
+		case *types.Slice:
+			t = u.Elem()
+		default:
+			return nil
+		}
+	}
+	return t
+}
+
 // PrettyPath renders an access path with field names where the object's type is known.
 func PrettyPath(t types.Type, path []Sel) string {
 	var sb []byte
@@ -364,8 +387,13 @@ func (ip *Interp) loadDyn(st *State, p *Ptr, t types.Type) Val {
 	}
 	// an unknown cell: identified by object, index term and the store epoch, so that
 	// two reads of the same cell without an intervening store are the same value
-	if w, sg, ok := IntType(t); ok && di == len(p.Path)-1 {
-		key := fmt.Sprintf("mem%d(%s%s)[%s]", ip.storeEpoch, p.Obj.Name, PrettyPath(p.Obj.T, p.Path[:di]), idx.Lin.Key())
+	if w, sg, ok := IntType(t); ok {
+		// element type of the indexed array/slice, to name the fields below it
+		var et types.Type
+		if p.Obj.T != nil {
+			et = typeAtPath(p.Obj.T, p.Path[:di+1])
+		}
+		key := fmt.Sprintf("mem%d(%s%s)[%s]%s", ip.storeEpoch, p.Obj.Name, PrettyPath(p.Obj.T, p.Path[:di]), idx.Lin.Key(), PrettyPath(et, p.Path[di+1:]))
 		return NewSym(w, ip.In.Atom(key, w, mask(w)), sg) // memory content: a base unknown of its own
 	}
 	return ip.topOf(t, "load["+idx.Lin.Key()+"]"+p.Obj.Name+PathKey(p.Path[:di]))
@@ -423,6 +451,9 @@ func (ip *Interp) Store(st *State, p *Ptr, t types.Type, v Val) {
 	}
 	st.Heap.set(k, v)
 	for _, h := range ip.curLoops {
+		if n, ok := ip.headerObjs[h]; ok && p.Obj.ID >= n {
+			continue // allocated inside this loop: new in every iteration, carries nothing across
+		}
 		w := ip.loopWritten[h]
 		if w == nil {
 			w = map[string]bool{}
